@@ -60,6 +60,9 @@ type WaitCase struct {
 	// 7.2.4), 2 router|solicited|override, 3 router|solicited. An entry under
 	// resolution takes the link address from any of them (RFC 4861 7.2.5).
 	NAFlags int `json:"na_flags,omitempty"`
+	// HostOctet > 0 (IPv4, on-link): the neighbour is 10.0.1.<HostOctet> - in the /16 the
+	// interface is on, .255 and .0 are ordinary hosts that need resolving like any other
+	HostOctet int `json:"host_octet,omitempty"`
 }
 
 type waitResult struct {
@@ -122,6 +125,10 @@ func runWaitOnce(c WaitCase) (fail *evid.Failure, missed bool) {
 		}
 	}
 	dest := peerIP(c.V6, 5)
+	if !c.V6 && !c.Gateway && c.HostOctet > 0 {
+		dest = []byte{10, 0, 1, byte(c.HostOctet)}
+		evid.Label(fmt.Sprintf("wait:neighbour-10.0.1.%d", byte(c.HostOctet)))
+	}
 	hop := dest
 	if c.Gateway {
 		if c.V6 {
@@ -450,6 +457,7 @@ func genWait(rt *rapid.T) WaitCase {
 		TimeoutMs: rapid.SampledFrom([]int{10, 20, 40}).Draw(rt, "timeout_ms"),
 		Attempts:  rapid.SampledFrom([]int{3, 3, 3, 1, 2, 4}).Draw(rt, "attempts"),
 		Gateway:   rapid.IntRange(0, 2).Draw(rt, "gateway") == 0,
+		HostOctet: rapid.SampledFrom([]int{0, 0, 0, 255, 255, 256, 254, 128}).Draw(rt, "host-octet"),
 		Decoy:     rapid.Bool().Draw(rt, "decoy"),
 	}
 	c.AnswerAfter = rapid.IntRange(0, c.Attempts).Draw(rt, "answer_after")
